@@ -205,8 +205,14 @@ func (sc *SlotChain) Entry(ctx *EntryContext) *TokenResult {
 	}
 	if ruleCheckRet == nil {
 		ctx.RuleCheckResult.ResetToPass()
-	} else {
-		ctx.RuleCheckResult = ruleCheckRet
+	} else if ruleCheckRet != ctx.RuleCheckResult {
+		// The slot answered with a TokenResult of its own. Copy it: the result held by the
+		// context is recycled (and reset) together with the context, so it must not be an
+		// object the slot keeps, nor one that ends up in two pooled contexts.
+		if ctx.RuleCheckResult == nil {
+			ctx.RuleCheckResult = NewTokenResultPass()
+		}
+		ctx.RuleCheckResult.DeepCopyFrom(ruleCheckRet)
 	}
 
 	vhook.Yield("chain.checked")
